@@ -22,7 +22,7 @@ ASSUMPTIONS = [
     "CORS is not given all-zero losses (its normalisation divides by max|loss|)",
 ]
 REQUIRED_COUNTERS = {f"batches_{k}": 20 for k in G.SAMPLER_KINDS}
-REQUIRED_COUNTERS.update({"spaces_with_equal_length_axes": 20, "spaces_with_a_million_point_axis": 5, "bestbatch_history_shorter_than_batch": 3, "nonaligned_spaces": 50, "multi_call_objects": 50, "second_space_calls": 60})
+REQUIRED_COUNTERS.update({"spaces_with_integer_typed_bounds": 30, "swarm_restarts_on_empty_history": 3, "cors_runs_beyond_max_samples": 1, "spaces_with_equal_length_axes": 20, "spaces_with_a_million_point_axis": 5, "bestbatch_history_shorter_than_batch": 3, "nonaligned_spaces": 50, "multi_call_objects": 50, "second_space_calls": 60})
 SHARDS = {"quick": 16, "thorough": 16}
 SHARD_WATCHDOG = {"quick": 1500, "thorough": 10800}
 
@@ -40,8 +40,16 @@ def run_case(desc, ctx):
     slow = kind in ("CORS", "GaussianProcess")
     for rep in range(2 if slow else 4):
         sd = G.gen_space(rng, dims=int(rng.integers(1, 4)) if slow else None, giant_ok=not slow)
+        if rng.random() < 0.12:
+            sd = G.gen_int_bounds_space(rng, int(rng.integers(1, 4)))
+            c["spaces_with_integer_typed_bounds"] = c.get("spaces_with_integer_typed_bounds", 0) + 1
         space = G.build_space(sd)
         smp = G.gen_sampler_desc(rng, kind)
+        if "pool" in smp and rng.random() < 0.1:
+            smp["pool"] = smp["batch_size"]     # the smallest admissible pool: every candidate is returned
+            c["pool_equal_to_batch_size"] = c.get("pool_equal_to_batch_size", 0) + 1
+        if kind == "CORS" and rng.random() < 0.3:
+            smp["max_samples"] = 20             # the run asks for more points than max_samples: still grid points
         bs = smp["batch_size"]
         nh = int(rng.integers(max(bs, 2), 25 if slow else 61))
         if kind in G.HISTORY_FREE and rng.random() < 0.3:
@@ -57,6 +65,10 @@ def run_case(desc, ctx):
         if kind == "CORS" and not np.any(losses):
             losses = losses + 1.0
         ncalls = int(rng.integers(1, 4 if slow else 9))
+        if kind == "CORS" and smp.get("max_samples") == 20 and rep == 0:
+            ncalls = int(rng.integers(6, 10))
+            c["cors_runs_beyond_max_samples"] = c.get("cors_runs_beyond_max_samples", 0) + 1
+        restart_at = int(rng.integers(1, ncalls)) if (kind == "ParticleSwarm" and ncalls >= 2 and rng.random() < 0.25) else None
         wit = {"sampler": smp, "space": sd, "n_history": nh, "loss_kind": lk, "calls": ncalls}
         nonal = G.space_is_nonaligned(space)
         if nonal:
@@ -69,6 +81,10 @@ def run_case(desc, ctx):
             continue
         done = 0
         for call in range(ncalls):
+            if restart_at == call:
+                # the object is used again from scratch (a first batch that failed, a new calibration): an EMPTY history after earlier calls
+                pts, losses = np.zeros((0, space.dims)), np.zeros(0)
+                c["swarm_restarts_on_empty_history"] = c.get("swarm_restarts_on_empty_history", 0) + 1
             try:
                 with quiet(), G.time_limit(G.LIMIT):
                     batch = sampler.sample(space, pts, losses)
